@@ -2,3 +2,8 @@
     ensures r is Ok ==> verified(*layout, layout_keys@, link_dir@),   // [C01,C06,C08]
             r is Ok ==> r->Ok_0.metadata is Link,                       // [C15,C14]
             r is Ok ==> r->Ok_0.metadata->Link_0.name@ == (match step_name { Some(n) => n@, None => Seq::empty() }),   // [C15]
+            // C01 in the property's own words (corollary of owner_gate by lemma_owner_gate_every_key_signed):
+            r is Ok ==> layout_keys@.len() >= 1,   // [C01]
+            r is Ok ==> forall|k: KeyId| layout_keys@.contains_key(k) ==> key_signed(*layout, #[trigger] layout_keys@[k]),   // [C01]
+            r is Ok ==> forall|a: KeyId, b: KeyId| layout_keys@.contains_key(a) && layout_keys@.contains_key(b) && a != b
+                ==> (#[trigger] layout_keys@[a]).kid() != (#[trigger] layout_keys@[b]).kid(),   // [C01]
